@@ -84,6 +84,11 @@ class AllOf(MultiFieldWrapper, Field, metaclass=_JSONSchemaDraft4ReuseMeta):
         for field in self.get_fields():
             setattr(field, "_name", self._name)
             field.__set__(_scratch_instance(instance), value)
+        if self.get_fields() and not getattr(instance, "_trust_supplied_values", False):
+            # like AnyOf: the (first) option stores its own validated copy on the real instance,
+            # so the caller's object is never retained
+            self.get_fields()[0].__set__(instance, value)
+            value = instance.__dict__[self._name]
         super().__set__(instance, value)
 
     def __str__(self):
@@ -188,11 +193,13 @@ class OneOf(MultiFieldWrapper, Field, metaclass=_JSONSchemaDraft4ReuseMeta):
 
     def __set__(self, instance, value):
         matched = 0
+        matched_field = None
         for field in self.get_fields():
             setattr(field, "_name", self._name)
             try:
                 field.__set__(_scratch_instance(instance), value)
                 matched += 1
+                matched_field = field
             except TypeError:
                 pass
             except ValueError:
@@ -209,7 +216,10 @@ class OneOf(MultiFieldWrapper, Field, metaclass=_JSONSchemaDraft4ReuseMeta):
             raise ValueError(
                 f"{prefix}: Got {wrap_val(value)}; Matched more than one field option"
             )
-        super().__set__(instance, value)
+        # like AnyOf: the matched option stores its own validated copy on the real instance,
+        # so the caller's object is never retained
+        matched_field.__set__(instance, value)
+        super().__set__(instance, instance.__dict__[self._name])
 
     def __str__(self):
         return _str_for_multioption_field(self)
